@@ -57,7 +57,7 @@ end AL
 /-- `trunc_depth`: pop from the front while the list is longer than `depth` -/
 def trunc {α : Type} (depth : Nat) (l : List α) : List α := l.drop (l.length - depth)
 
-/-- `cpu_statistics`: `100.0 * work / total if total else 0` per core, `zip` semantics on the two core lists -/
+/-- `cpu_statistics`: `100.0 * (work / total) if total else 0` per core (same exact value as the former `100.0 * work / total`), `zip` semantics on the two core lists -/
 def cpuStats (latest ref : List (Int × Int)) : List Q :=
   (latest.zip ref).map fun ((lw, li), (rw, ri)) =>
     let work := lw - rw
